@@ -12,13 +12,15 @@ SPLIT = {"par2": [("_none", "not fa and not fb"), ("_a", "fa and not fb")],
 scn.register(globals(), {"C11", "C09"}, ["seq_chain", "seq_misc", "exec_timeout", "two_execs", "start_routes", "par2", "par_pass_task", "map_items"], SPLIT)
 import s2_more as more
 more.register(globals(), {"C11", "C09"}, ["par3_mixed", "map_iter_catch", "map_fail_batches", "map_in_par", "par_in_map", "branch_fail_state", "par_longform", "nested_inner_catch"],
-              {"par3_mixed": [("_none", "not fa and not fb"), ("_a", "fa and not fb"), ("_b", "fb and not fa"), ("_ab", "fa and fb")], "map_in_par": [("_k%d" % k, "kind == %d" % k) for k in range(3)]})
+              {"nested_inner_catch": [("_catch", "mode == 0 and q2 == 0"), ("_retry", "mode == 1 and q2 == 0"), ("_catch_task", "mode == 0 and q2 == 1"), ("_retry_task", "mode == 1 and q2 == 1")], "par3_mixed": [("_none", "not fa and not fb"), ("_a", "fa and not fb"), ("_b", "fb and not fa"), ("_ab", "fa and fb")], "map_in_par": [("_k%d" % k, "kind == %d" % k) for k in range(3)]})
 
 import s2_redis as rds
 rds.register(globals(), {"C11", "C09", "C02"}, ["redis_chain", "redis_name_reused"])
 ASSUMPTIONS = ASSUMPTIONS + [
     "redis_* conditions: the engine's stores are the real RedisDictStore/RedisListStore over vf.fake_redis (one connection per process, tracker thread not run: cache invalidation messages are delivered by the harness before each read, or left pending); after every scheduling step DescribeExecution, GetExecutionHistory and ListExecutions are answered by the real REST handlers (asyncio / blocking front end) of the engine's own process or of a second process with its own connection, and compared with the execution's latest notification",
 ]
+globals()["nested_inner_catch_retry_task"]._vf.tiers = ("thorough",)   # 1665 schedules: quick tier runs it under C06 only
+
 
 # ---------------------------------------------------------------------------
 # One-step kernel (Engine A): broadcast_notification
